@@ -217,6 +217,19 @@ def d3_refs(chk, F):
     chk.expect(ok, "C06.D3-ref-modifier", "resolve_reference|set_reference+REF", f"{rr.file}:{rr.line}",
                "a component is turned into a reference without receiving Modifiers::REF: " + why,
                sample=f"{rr.file}:{rr.line}: every set_reference(new, ..) is accompanied by `*new.modifiers_mut() |= Modifiers::REF`")
+    # (a'') once the component has been made a reference, resolve_reference must report it (Some): the callers add the
+    #       back link only for Some, so a `None` after set_reference leaves a reference its definition does not list back
+    nones = [(i, st.get("line")) for i, j, st in rr.iter_stmts() if st["k"] == "assign" and st["place"]["l"] == 0 and not st["place"]["p"]
+             and st["rv"].get("k") == "agg" and st["rv"].get("agg") == "adt" and norm(st["rv"]["adt"]).endswith("option::Option") and st["rv"]["variant"] == "None"]
+    somes = [i for i, j, st in rr.iter_stmts() if st["k"] == "assign" and st["place"]["l"] == 0 and not st["place"]["p"]
+             and st["rv"].get("k") == "agg" and st["rv"].get("variant") == "Some"]
+    for b, t in sr:
+        reach = rr.reach_from(b)
+        bad = [(n, ln) for n, ln in nones if n in reach]
+        chk.expect(not bad and any(x in reach for x in somes), "C06.D3-backlink", "resolve_reference|Some after set_reference", rr.where(b),
+                   "resolve_reference can return None after it has turned the component into a reference"
+                   + (f" (None built at {rr.file}:{bad[0][1]})" if bad else "") + ": the caller then skips set_referenced_from and the definition does not list the reference back",
+                   sample=f"{rr.where(b)}: every return reachable after set_reference is Some(..)")
     # the search: rposition over C::all(&self.content) with a predicate excluding Modifiers::REF
     rp = region_calls_to(F, region, "Iterator>::rposition") + region_calls_to(F, region, "Iterator::rposition")
     chk.floor("C06.D3-reference", "rposition search", len(rp), 1, f"{rr.file}:{rr.line}")
